@@ -218,6 +218,36 @@ func c13Select(r *core.Run, p *core.Program) {
 		}
 	}
 	r.Check(okTot, rule, "inputs/total", p.Pos(ms.Pos()), "btcsofar is 0 plus the value of every selected output", "the running total is not exactly the sum of the values of the outputs appended to Spent_outputs")
+	// the list of unspent outputs is read the way it is written: "<txid>-<vout>" with the index printed in
+	// decimal (zero padded), so it must be parsed in base 10 (base 0 would read 010 as 8), 32 bits wide
+	if nu := c13w(p, "NewUnspRec"); nu == nil {
+		r.Fail(rule, "list/index-format", "-", "NewUnspRec not found")
+	} else {
+		okBase := false
+		for _, c := range c13Calls(nu, "strconv.ParseUint") {
+			a := c13Args(c)
+			if a[1] == "10" && a[2] == "32" {
+				okBase = true
+			}
+		}
+		for _, n := range []string{"strconv.ParseInt", "strconv.Atoi"} {
+			if len(c13Calls(nu, n)) > 0 {
+				okBase = false
+			}
+		}
+		okFmt := false
+		if ps := p.Func("lib/btc.(*TxPrevOut).String"); ps != nil {
+			an.Instrs(ps, func(i ssa.Instruction) {
+				if c, ok := i.(*ssa.Call); ok && an.CallName(c) == "fmt.Sprintf" {
+					f := an.Expr(c.Call.Args[0])
+					if strings.Contains(f, "d") && strings.Contains(f, "-%") && !strings.Contains(f, "x") && !strings.Contains(f, "o") {
+						okFmt = true
+					}
+				}
+			})
+		}
+		r.Check(okBase && okFmt, rule, "list/index-format", p.Pos(nu.Pos()), "the output index is written in decimal and parsed with ParseUint(.., 10, 32)", fmt.Sprintf("the output index of a listed unspent output is not read in the base it is written in (decimal writer: %v, base-10 32-bit reader: %v)", okFmt, okBase))
+	}
 	// process_raw_tx
 	pr := c13w(p, "process_raw_tx")
 	okRaw := false
